@@ -62,7 +62,7 @@ def gen(rs, tier, index):
             nd['p']['values'] = [v for v in vals for _ in range(rng.randint(1, 4))]
     refs = sorted(netlist.sig_widths(d))
     watch = []
-    for _ in range(rng.randint(1, 10)):
+    for _ in range(rng.randint(1, 10) if rng.random() < 0.97 else rng.choice([33, 65, 130])):
         r = rng.random()
         if r < 0.55 or not d['nodes']:
             watch.append({'t': 'wire', 'ref': rng.choice(refs)})
@@ -89,10 +89,13 @@ def gen(rs, tier, index):
     for s in range(sr.randint(1, 3)):
         steps = []
         total = sr.choice([0, 1, 2, 5, 20, 60]) if tier == 'quick' else sr.choice([0, 1, 10, 80, 200])
+        long_rec = s == 0 and fr.random() < 0.02
+        if long_rec:
+            total = fr.choice([300, 600, 1100, 2200, 4500])      # a long recording: thousands of samples per lane
         c = 0
         prev = None
         while c < total:
-            n = min(total - c, sr.choice([1, 1, 2, 7, 30]))
+            n = min(total - c, sr.choice([1, 1, 2, 7, 30]) if not long_rec else fr.randint(20, 200))
             vec = netlist.gen_vector(sr, d['inputs'], prev)
             prev = vec
             parts = []
